@@ -498,7 +498,9 @@ def c17(ctx, e):
             if ev["ev"] != "LogCall":
                 continue
             li = log_idx.get(ev["pt"])
-            emitted = k + 1 < len(evs) and evs[k + 1]["ev"] == "LogEmit" and evs[k + 1]["pt"] == ev["pt"]
+            # the record is emitted inside the logger call: it is the next event of the SAME thread (other threads may log between)
+            nxt = next((x for x in evs[k + 1:] if x.get("th") == ev.get("th")), None)
+            emitted = nxt is not None and nxt["ev"] == "LogEmit" and nxt["pt"] == ev["pt"]
             if not emitted and r.outcome == "CRASHED" and not any(x.get("th") == ev.get("th") and x["ev"] != "Abort" for x in evs[k + 1:]):
                 continue      # the process was killed inside this very log call
             if li is None:
@@ -510,8 +512,8 @@ def c17(ctx, e):
             expected = not any(c > li for c in comp)
             if r.inv == 1 and not (e.invocations[0].ops_at_start):
                 expected = True
-            if emitted and evs[k + 1].get("extra", {}).get("executionArn") != e.backend.arn:
-                ctx.violation("log-extras", f"log record of {ev['pt']} lacks the execution ARN: {evs[k + 1].get('extra')}", scen_of(e))
+            if emitted and nxt.get("extra", {}).get("executionArn") != e.backend.arn:
+                ctx.violation("log-extras", f"log record of {ev['pt']} lacks the execution ARN: {nxt.get('extra')}", scen_of(e))
                 return
             if expected == emitted:
                 continue
